@@ -324,6 +324,21 @@ type nodeState struct {
 	started int // exec_start events of the current visit (barrier gate)
 	depIn   int // first attempts of "dep"-gated items started in the current visit
 	nilSeen int // nil-argument exec calls of the current visit (Any-style exec, error-Result items)
+	open    bool // a visit of a node without a prep function is in progress (its first phase opens it)
+}
+
+// begin opens a new visit; called inside the scheduler by the first phase the node has.
+func (st *nodeState) begin() int {
+	v := st.visits
+	st.visits++
+	st.cur = v
+	st.attempt = 0
+	st.started = 0
+	st.depIn = 0
+	st.nilSeen = 0
+	st.itemAtt = map[int]int{}
+	st.open = true
+	return v
 }
 
 type harness struct {
@@ -433,14 +448,7 @@ func (h *harness) prep(n *NodeSpec, shared *flyt.SharedStore) (any, error) {
 	st := h.st[n.ID]
 	var v int
 	simrt.EmitF(simrt.Event{Kind: "prep_start", N: n.ID}, nil, func(e *simrt.Event) {
-		v = st.visits
-		st.visits++
-		st.cur = v
-		st.attempt = 0
-		st.started = 0
-		st.depIn = 0
-		st.nilSeen = 0
-		st.itemAtt = map[int]int{}
+		v = st.begin()
 		e.V = v
 		e.S1 = h.storeID(shared)
 	})
@@ -571,6 +579,9 @@ func (h *harness) exec(n *NodeSpec, arg any, anyStyle bool) (val any, errRes err
 	nilArgErrItem := n.Kind == "batch" && anyStyle && argDesc == "nil"
 	var v, a int
 	simrt.EmitF(simrt.Event{Kind: "exec_start", N: n.ID, S1: argDesc}, nil, func(e *simrt.Event) {
+		if n.Kind == "func" && !hasPhase(n, 0) && !st.open {
+			st.begin() // no prep function: the first exec attempt opens the visit
+		}
 		v = st.cur
 		if nilArgErrItem {
 			// sequential batch, Any-style exec: the k-th nil argument belongs to the
@@ -627,17 +638,26 @@ func (h *harness) exec(n *NodeSpec, arg any, anyStyle bool) (val any, errRes err
 	case "":
 		val = h.reg.mkPay(o.Pay, tok)
 		end.S1 = "ok:" + payDesc(o.Pay, tok)
-		simrt.Emit(end)
+		simrt.EmitF(end, nil, func(*simrt.Event) { st.open = false })
 		return val, nil, nil
 	case "errres":
 		e := h.reg.mkErr("errres", tok+"X")
 		end.S1 = "errres:" + tok + "X"
-		simrt.Emit(end)
+		simrt.EmitF(end, nil, func(*simrt.Event) { st.open = false })
 		return nil, e, nil
 	default:
 		e := h.reg.mkErr(o.Fail, tok+"X")
 		end.S1 = "err:" + tok + "X"
-		simrt.EmitF(end, nil, func(*simrt.Event) { h.failSeen = true })
+		budget := 1
+		if n.retryable() {
+			budget = max(n.configRun(h.runIdx).Retries, 1)
+		}
+		simrt.EmitF(end, nil, func(*simrt.Event) {
+			h.failSeen = true
+			if a >= budget {
+				st.open = false // the attempts of this visit are used up
+			}
+		})
 		if o.Both && o.Pay == "er" && !anyStyle {
 			return nil, e, e // the failure reported both ways
 		}
@@ -720,6 +740,10 @@ func (h *harness) post(n *NodeSpec, shared *flyt.SharedStore, p, e any, resultSt
 	}
 	var v int
 	simrt.EmitF(simrt.Event{Kind: "post_start", N: n.ID, S1: h.storeID(shared), S2: pd, S3: ed}, nil, func(ev *simrt.Event) {
+		if n.Kind == "func" && !hasPhase(n, 0) && !hasPhase(n, 1) {
+			st.begin() // a routing-only node: post is its only phase
+		}
+		st.open = false
 		v = st.cur
 		ev.V = v
 	})
@@ -795,6 +819,18 @@ type baseNode struct {
 type baseFbNode struct {
 	baseWrap
 	fbcb
+}
+// A user type that embeds BaseNode and specifies its retry behaviour by
+// overriding the getters (the embedded node's own fields hold other values).
+type ovrNode struct {
+	baseWrap
+	cb
+	retrym
+}
+type ovrFbNode struct {
+	baseWrap
+	fbcb
+	retrym
 }
 type plainNode struct{ cb }
 type fbNode struct{ fbcb }
@@ -1229,6 +1265,19 @@ func (h *harness) build() {
 			} else {
 				h.nodes[i] = &baseNode{baseWrap: bw, cb: c}
 			}
+		case "ovr":
+			// the embedded node is configured with values the getters do not report
+			cfg := n.config()
+			decoyWait := 30 * time.Millisecond
+			if cfg.WaitMs > 0 {
+				decoyWait = 0
+			}
+			bw := baseWrap{flyt.NewBaseNode(flyt.WithMaxRetries(cfg.Retries+1+n.ID%2), flyt.WithWait(decoyWait))}
+			if n.HasFb {
+				h.nodes[i] = &ovrFbNode{baseWrap: bw, fbcb: fbcb{h, n}, retrym: retrym{n}}
+			} else {
+				h.nodes[i] = &ovrNode{baseWrap: bw, cb: c, retrym: retrym{n}}
+			}
 		case "zst":
 			k := 0
 			for k < len(zstSpec) && zstSpec[k] != nil {
@@ -1485,6 +1534,9 @@ func (h *harness) runMain() {
 		h.ctxMu.Lock()
 		h.ctxSeen = nil
 		h.ctxMu.Unlock()
+		for _, st := range h.st {
+			st.open = false
+		}
 		simrt.Emit(simrt.Event{Kind: "run_start", N: r})
 		var action flyt.Action
 		var err error
